@@ -1078,6 +1078,19 @@ class PseudoNetCDFFile(PseudoNetCDFSelfReg, object):
                 else:
                     outf.variables[key] = val
             else:
+                # a plain array or scalar is stored under the dimensions of
+                # the first variable of the expression: they must describe it
+                dimlens = tuple([
+                    len(outf.dimensions[dk]) if dk in outf.dimensions else None
+                    for dk in dimt
+                ])
+                if tuple(np.shape(val)) != dimlens:
+                    raise ValueError(
+                        ('%s has shape %s, but the dimensions %s it would ' +
+                         'be stored with have lengths %s; create the ' +
+                         'variable with the dimensions of the result ' +
+                         'instead') %
+                        (key, tuple(np.shape(val)), tuple(dimt), dimlens))
                 if aliased:
                     val = val.copy()
                 outf.createVariable(key, val.dtype.char,
